@@ -28,7 +28,15 @@ import (
 // true if the first element of the proof set is a leaf of data in the Merkle
 // root. False is returned if the proof set or Merkle root is nil, and if
 // 'numLeaves' equals 0.
-func VerifyProof(h hash.Hash, merkleRoot []byte, proofSet [][]byte, proofIndex uint64, numLeaves uint64) bool {
+func VerifyProof(h hash.Hash, merkleRoot []byte, proofSet [][]byte, proofIndex uint64, numLeaves uint64) (ok bool) {
+	// the algebraic hashers of this library reject inputs that are not canonical field elements
+	// (their Write returns an error, on which sum panics): a tampered proof element must make the
+	// verification fail, not crash the verifier
+	defer func() {
+		if r := recover(); r != nil {
+			ok = false
+		}
+	}()
 	// Return false for nonsense input. A switch statement is used so that the
 	// cover tool will reveal if a case is not covered by the test suite. This
 	// would not be possible using a single if statement due to the limitations
@@ -37,6 +45,11 @@ func VerifyProof(h hash.Hash, merkleRoot []byte, proofSet [][]byte, proofIndex u
 		return false
 	}
 	if proofIndex >= numLeaves {
+		return false
+	}
+	// the path from a leaf to the root has a length fixed by the shape of the tree: a shorter proof
+	// set would let an interior node play the role of the leaf, a longer one appends free elements
+	if uint64(len(proofSet)) != 1+pathLength(proofIndex, numLeaves) {
 		return false
 	}
 
@@ -134,4 +147,25 @@ func VerifyProof(h hash.Hash, merkleRoot []byte, proofSet [][]byte, proofIndex u
 
 	// Compare our calculated Merkle root to the desired Merkle root.
 	return bytes.Equal(sum, merkleRoot)
+}
+
+// pathLength returns the number of siblings on the path from the leaf at index to the root of a
+// tree of numLeaves leaves (the left subtree of a node holds the largest power of two of leaves
+// that is smaller than the number of leaves below the node).
+func pathLength(index, numLeaves uint64) uint64 {
+	var n uint64
+	for numLeaves > 1 {
+		k := uint64(1)
+		for k<<1 < numLeaves {
+			k <<= 1
+		}
+		if index < k {
+			numLeaves = k
+		} else {
+			index -= k
+			numLeaves -= k
+		}
+		n++
+	}
+	return n
 }
